@@ -6,6 +6,7 @@ open Emboss.Types Driver
 `EXPR <file> <expr>` → `ty=<T> errs=<e;e;...>`;
 `TYPE X k (file e)* P k (file loc (A|T ty))* L k (file e e)* A k (file e)* C k (file e)* V k (file e)*
  S k (file loc file loc n (ty loc)* g e*)* T k (file loc kind signed val)*`
+(val = `s0 | s1 | x <expr> (k0 | k1 <expr in C05's language>)`)
 → `accepted` | `rejected <pass> <errs>` | `crashed <c>`; an error is `loc@file:class(+loc@file)*`. -/
 
 abbrev P (α : Type) := List String → Option (α × List String)
@@ -135,6 +136,53 @@ def pPassed : P Passed := fun ts => do
   let (g, ts) ← pCounted pExpr ts
   pure (⟨f, l, df, d, ex, g⟩, ts)
 
+def bBinOpOf : String → Option Emboss.Bounds.BinOp
+  | "add" => some .add | "sub" => some .sub | "mul" => some .mul | "and" => some .and
+  | "or" => some .or | "eq" => some .eq | "ne" => some .ne | "lt" => some .lt
+  | "le" => some .le | "gt" => some .gt | "ge" => some .ge | _ => none
+
+def pSize : String → Option (Option Int)
+  | "?" => some none
+  | s => s.toInt?.map some
+
+/-- An attribute value in C05's expression language (prefix notation, explicit arities):
+`c n | t | f | ec n | u id size | s id size | d id size | ss id | bl id | el id |
+ <binop> a b | ch c t f | max k a… | ub a | lb a | cref a | vref a | present a c`. -/
+partial def pBExpr : P Emboss.Bounds.Expr
+  | "c" :: v :: ts => v.toInt?.map fun n => (.const n, ts)
+  | "t" :: ts => some (.bconst true, ts)
+  | "f" :: ts => some (.bconst false, ts)
+  | "ec" :: v :: ts => v.toInt?.map fun n => (.econst n, ts)
+  | "u" :: id :: sz :: ts => do pure (.ileaf (← id.toNat?) .uint (← pSize sz), ts)
+  | "s" :: id :: sz :: ts => do pure (.ileaf (← id.toNat?) .sint (← pSize sz), ts)
+  | "d" :: id :: sz :: ts => do pure (.ileaf (← id.toNat?) .bcd (← pSize sz), ts)
+  | "ss" :: id :: ts => id.toNat?.map fun n => (.ssize n, ts)
+  | "bl" :: id :: ts => id.toNat?.map fun n => (.bleaf n, ts)
+  | "el" :: id :: ts => id.toNat?.map fun n => (.eleaf n, ts)
+  | "ch" :: ts => do
+    let (c, ts) ← pBExpr ts
+    let (t, ts) ← pBExpr ts
+    let (f, ts) ← pBExpr ts
+    pure (.choice c t f, ts)
+  | "max" :: ts => do
+    let (k, ts) ← pNat ts
+    let (as, ts) ← pMany pBExpr k ts
+    pure (.max as, ts)
+  | "ub" :: ts => do let (a, ts) ← pBExpr ts; pure (.upper a, ts)
+  | "lb" :: ts => do let (a, ts) ← pBExpr ts; pure (.lower a, ts)
+  | "cref" :: ts => do let (a, ts) ← pBExpr ts; pure (.cref a, ts)
+  | "vref" :: ts => do let (a, ts) ← pBExpr ts; pure (.vref a, ts)
+  | "present" :: ts => do
+    let (a, ts) ← pBExpr ts
+    let (c, ts) ← pBExpr ts
+    pure (.present a c, ts)
+  | op :: ts => do
+    let o ← bBinOpOf op
+    let (a, ts) ← pBExpr ts
+    let (b, ts) ← pBExpr ts
+    pure (.bin o a b, ts)
+  | [] => none
+
 def kindOf : String → Option AKind
   | "boolconst" => some .boolConst | "bool" => some .bool
   | "int" => some .intConst | "strlist" => some .strList | "backends" => some .backEnds | _ => none
@@ -147,9 +195,14 @@ def pAttr : P Attr := fun ts => do
     let kind ← kindOf k
     let signed := sg == "1"
     match ts with
-    | "s0" :: ts => pure (⟨f, l, kind, signed, .str false⟩, ts)
-    | "s1" :: ts => pure (⟨f, l, kind, signed, .str true⟩, ts)
-    | "x" :: ts => do let (e, ts) ← pExpr ts; pure (⟨f, l, kind, signed, .expr e⟩, ts)
+    | "s0" :: ts => pure (⟨f, l, kind, signed, .str false, none⟩, ts)
+    | "s1" :: ts => pure (⟨f, l, kind, signed, .str true, none⟩, ts)
+    | "x" :: ts => do
+      let (e, ts) ← pExpr ts
+      match ts with
+      | "k1" :: ts => do let (b, ts) ← pBExpr ts; pure (⟨f, l, kind, signed, .expr e, some b⟩, ts)
+      | "k0" :: ts => pure (⟨f, l, kind, signed, .expr e, none⟩, ts)
+      | _ => none
     | _ => none
   | _ => none
 
